@@ -18,6 +18,11 @@ Oracle (odxmodel.refcompare, by ODX object identity, no odxtools):
     the generated database `shared` has its ECU-SHARED-DATA layer in a second container after layers with comparams;
   * additionally every ordered pair of different layers of a base database (`compare -v A B`) is judged by the same
     identity-based difference.
+  * every case runs in a forked child of a process that never compared anything (so no verdict depends on earlier
+    cases and every violation replays in isolation); history dependence is explored explicitly: all ordered pairs
+    (X, Y) of 7 comparisons among the files a / a2 (same content) / b (rename) / c (semantic edit) are executed as
+    "X then Y" in one process, with fresh and with shared Comparison objects; Y's answer must equal the answer of Y
+    done first in a fresh process and the reference's; the case records the SEQUENCE and replays it as such;
   * CLI phase: `odxtools compare F [-db ...] [-v ...]` and `odxtools list ...` are run in-process through
     odxtools.cli.main.start_cli() (sys.argv patched, stdout captured; the result objects handed to
     Comparison.print_database_changes / print_dl_changes, the section headers and the overview tables are intercepted):
@@ -385,6 +390,8 @@ def run_case(case: Dict[str, Any], part: Optional[Part] = None) -> List[Tuple[st
     cnt = part.count if part is not None else (lambda *a, **k: None)
     if case.get("cli"):
         return run_cli_case(case, part)
+    if case.get("seq"):
+        return run_seq_case(case, part)
     db_id, edit, target = case["db"], case.get("edit"), case.get("target")
     files, db, aux = base(db_id)
 
@@ -734,6 +741,104 @@ def cli_cases(db_ids: List[str]) -> List[Dict[str, Any]]:
     return cases
 
 
+# ---------------------------------------------------------------------------------------------
+# process isolation: every case (and every replay) runs in a forked child of a process that has never executed a
+# comparison, so that a verdict cannot depend on what was compared before in the same process -- and history
+# dependence itself is explored explicitly by the sequence cases below
+# ---------------------------------------------------------------------------------------------
+def isolated(fn: Any, *args: Any) -> Any:
+    import pickle
+    import traceback
+    r, w = os.pipe()
+    pid = os.fork()
+    if pid == 0:
+        code = 0
+        try:
+            os.close(r)
+            try:
+                res = ("ok", fn(*args))
+            except BaseException as e:  # reported by the parent
+                res = ("err", f"{type(e).__name__}: {e}\n{traceback.format_exc()[-1500:]}")
+            cleanup()
+            with os.fdopen(w, "wb") as f:
+                pickle.dump(res, f)
+        except BaseException:
+            code = 1
+        finally:
+            os._exit(code)
+    os.close(w)
+    with os.fdopen(r, "rb") as f:
+        data = f.read()
+    os.waitpid(pid, 0)
+    if not data:
+        raise RuntimeError("isolated child died without a result")
+    kind, val = pickle.loads(data)
+    if kind == "err":
+        raise RuntimeError("in isolated child: " + val)
+    return val
+
+
+# sequences of two comparisons in one process
+SEQ_CMPS = [["a", "a2"], ["a", "a"], ["b", "a"], ["a", "b"], ["c", "a"], ["a", "c"], ["b", "c"]]
+_VARDB: Dict[str, Dict[str, Any]] = {}
+
+
+def var_dbs(db_id: str) -> Tuple[Dict[str, Dict[str, str]], Dict[str, Any]]:
+    """the four databases of cli_variants(), each loaded on its own (a2 is an independently loaded copy of a)"""
+    if db_id not in _VARDB:
+        aux = ec.base_aux(db_id, repo_root())
+        var = cli_variants(db_id)
+        _VARDB[db_id] = {"files": var, "dbs": {k: load_as_pdx(f, aux) for k, f in var.items()}}
+    return _VARDB[db_id]["files"], _VARDB[db_id]["dbs"]
+
+
+def observe_cmp(task: Any, dbs: Dict[str, Any], pair: List[str]) -> Dict[str, Any]:
+    new, old = dbs[pair[0]], dbs[pair[1]]
+    if task is None:
+        task = new_task([new, old])
+    res = task.compare_databases(new, old)
+    return {"new_layers": sorted(dl.short_name for dl in res["new_diagnostic_layers"]),
+            "deleted_layers": sorted(dl.short_name for dl in res["deleted_diagnostic_layers"]),
+            "layers": {k: observe_layer(v) for k, v in res.items() if isinstance(v, dict)}}
+
+
+def run_seq_case(case: Dict[str, Any], part: Optional[Part] = None) -> List[Tuple[str, str]]:
+    """{"db", "seq": [X, Y], "same_task": bool}: comparison X, then comparison Y in the same process (with a fresh
+    Comparison object, or with one object for both as `compare F -db ...` uses it).  Y's answer has to be the answer Y
+    gets as the first comparison of a process, and the one the reference demands.  Must run in an isolated child."""
+    out: List[Tuple[str, str]] = []
+    files, dbs = var_dbs(case["db"])
+    x, y = case["seq"]
+    fresh = isolated(observe_cmp, None, dbs, y)  # this process has not compared anything yet
+    task = new_task(list(dbs.values())) if case.get("same_task") else None
+    try:
+        observe_cmp(task, dbs, x)
+        after = observe_cmp(task, dbs, y)
+    except Exception as e:
+        return [(f"C18/sequence/raises/{type(e).__name__}", f"{x} then {y}: {type(e).__name__}: {e}")]
+    tag = f"comparison {y[0]}-vs-{y[1]} after comparison {x[0]}-vs-{x[1]}" + (" (same Comparison object)" if case.get("same_task") else "")
+    if after != fresh:
+        diff = sorted(l for l in set(after["layers"]) | set(fresh["layers"]) if after["layers"].get(l) != fresh["layers"].get(l))
+        l0 = diff[0] if diff else None
+        out.append(("C18/sequence/answer-depends-on-history",
+                    f"{tag}: differs from the same comparison done first in a fresh process in layers {diff}; "
+                    f"fresh {({k: v for k, v in fresh['layers'].get(l0, {}).items() if k in CATS}) if l0 else fresh}, "
+                    f"after {({k: v for k, v in after['layers'].get(l0, {}).items() if k in CATS}) if l0 else after}"))
+    exp = ref.expected_changes(files[y[0]], files[y[1]])
+    if not exp["ambiguous"]:
+        out.extend(judge("sequence", None, exp, after, tag))
+    if part is not None:
+        part.count("evaluations", 2)
+        part.count("sequences")
+        if any(l[c] for l in exp["layers"].values() for c in CATS):
+            part.add("nontrivial", digest((case["db"], "seq", x, y, bool(case.get("same_task")))))
+    return out
+
+
+def seq_cases(db_ids: List[str]) -> List[Dict[str, Any]]:
+    return [{"db": d, "seq": [x, y], "same_task": st} for d in db_ids for x in SEQ_CMPS for y in SEQ_CMPS for st in (False, True)]
+
+
 def cleanup() -> None:
     """pool workers are terminated without running atexit handlers, so the per-process scratch directory is removed
     explicitly (emit.scratch_dir() re-creates it on demand)"""
@@ -742,16 +847,34 @@ def cleanup() -> None:
         shutil.rmtree(d, ignore_errors=True)
 
 
-def unit(cases: List[Dict[str, Any]]) -> Part:
+def case_part(case: Dict[str, Any]) -> Part:
     import odxtools.exceptions as ox
+    ox.strict_mode = True
+    part = Part()
+    for key, detail in run_case(case, part):
+        part.violation(key, case, detail)
+    return part
+
+
+def preload(case: Dict[str, Any]) -> None:
+    """what a case needs that is NOT a comparison is imported / loaded once per worker, before the fork"""
+    import odxtools.cli._print_utils  # noqa: F401
+    import odxtools.cli.compare  # noqa: F401
+    import odxtools.cli.list  # noqa: F401
+    import odxtools.cli.main  # noqa: F401
+    if case.get("seq"):
+        var_dbs(case["db"])
+    elif not case.get("cli"):
+        base(case["db"])
+
+
+def unit(cases: List[Dict[str, Any]]) -> Part:
     part = Part()
     try:
         for case in cases:
-            ox.strict_mode = True
-            for key, detail in run_case(case, part):
-                part.violation(key, case, detail)
+            preload(case)
+            part.merge(isolated(case_part, case))
     finally:
-        ox.strict_mode = True
         cleanup()
     return part
 
@@ -775,6 +898,7 @@ def run(ctx: Ctx) -> None:
     db_ids = QUICK_DBS if ctx.quick else THOROUGH_DBS
     cases = all_cases(db_ids, deep=not ctx.quick)
     clis = cli_cases(db_ids)
+    seqs = seq_cases(db_ids)
     per_db = Counter(c["db"] for c in cases)
     ctx.bounds = {"databases": db_ids, "service_edits": ec.SERVICE_EDITS, "param_edits": ec.PARAM_EDITS,
                   "roles_of_the_edited_input": ["edited-new", "edited-old"], "cases_per_database": dict(per_db),
@@ -798,7 +922,11 @@ def run(ctx: Ctx) -> None:
     ctx.bounds["cli_invocations"] = {"total": len(clis), "compare": "first file a (base) or b (rename); -db every ordered selection of "
                                      "1..3 of the other files among a / a2 (same content) / b (rename) / c (semantic edit); each with and "
                                      "without -v <two layers>; plus `compare a -v`", "list": "no option; -v <all layers reversed> -s -p; -v <last layer> -a"}
-    chunks = [cases[i:i + 6] for i in range(0, len(cases), 6)] + [clis[i:i + 4] for i in range(0, len(clis), 4)]
+    ctx.bounds["sequences"] = {"total": len(seqs), "comparisons": SEQ_CMPS, "rule": "all ordered pairs (X, Y) of the comparisons, incl. X = Y, "
+                               "with a fresh Comparison object per comparison and with one object for both; files a = base, a2 = same "
+                               "content loaded again, b = rename, c = semantic edit"}
+    chunks = ([cases[i:i + 6] for i in range(0, len(cases), 6)] + [clis[i:i + 4] for i in range(0, len(clis), 4)] +
+              [seqs[i:i + 14] for i in range(0, len(seqs), 14)])
     pmap(ctx, unit, chunks)
     c = ctx.counts
     for e in ec.SERVICE_EDITS + ec.PARAM_EDITS:
@@ -809,6 +937,7 @@ def run(ctx: Ctx) -> None:
     ctx.guard("all four change kinds expected somewhere", {"new", "deleted", "rename"} <= ctx.sets.get("expected_kinds", set()))
     ctx.guard("metrics table captured", ctx.sets.get("metrics_capture", set()) <= {"table-object", "text"} and bool(ctx.sets.get("metrics_capture")))
     ctx.guard("metric rows checked", c.get("metric_rows", 0) > 0)
+    ctx.guard("sequences of two comparisons judged", c.get("sequences", 0) == len(seqs))
     ctx.guard("CLI: compare sections and list runs judged", c.get("cli_sections", 0) > 0 and c.get("cli_list_runs", 0) > 0)
     sh = ref.metrics(ec.base_files("shared", repo_root()))
     order = list(sh)
@@ -818,10 +947,16 @@ def run(ctx: Ctx) -> None:
     ctx.sample({"db": "somersault", "edit": "rename", "target": ["somersault.service.session_start"]})
 
 
-def replay(case: Any) -> List[Tuple[str, str]]:
+def replay_here(case: Dict[str, Any]) -> List[Tuple[str, str]]:
     import odxtools.exceptions as ox
     ox.strict_mode = True
+    return run_case(case, None)
+
+
+def replay(case: Any) -> List[Tuple[str, str]]:
+    """re-executes one case (a single edit, a CLI invocation or a SEQUENCE of comparisons) in a forked child, so that
+    the replays of one ./run do not influence each other either"""
     try:
-        return run_case(dict(case), None)
+        return isolated(replay_here, dict(case))
     finally:
         cleanup()
